@@ -256,7 +256,7 @@ func cmdCheck(args []string) int {
 	thorough := *tier == "thorough"
 	to := 60
 	if thorough {
-		to = 120
+		to = 180
 	}
 	if *timeout > 0 {
 		to = *timeout
@@ -338,6 +338,7 @@ func cmdCheck(args []string) int {
 		// obligations that discharge, but not well within the quick budget, are checked in the thorough tier only
 		if data, err := os.ReadFile(filepath.Join(verifDir, "specs", "slow.txt")); err == nil {
 			slow := map[string]bool{}
+			var slowPrefixes []string
 			for _, ln := range strings.Split(string(data), "\n") {
 				ln = strings.TrimSpace(ln)
 				if ln == "" || strings.HasPrefix(ln, "#") {
@@ -346,11 +347,26 @@ func cmdCheck(args []string) int {
 				if i := strings.Index(ln, "  # "); i >= 0 {
 					ln = strings.TrimSpace(ln[:i])
 				}
-				slow[ln] = true
+				if strings.HasSuffix(ln, "*") {
+					slowPrefixes = append(slowPrefixes, strings.TrimSuffix(ln, "*"))
+				} else {
+					slow[ln] = true
+				}
+			}
+			isSlow := func(n string) bool {
+				if slow[n] {
+					return true
+				}
+				for _, p := range slowPrefixes {
+					if strings.HasPrefix(n, p) {
+						return true
+					}
+				}
+				return false
 			}
 			var keep []obRef
 			for _, r := range todo {
-				if slow[r.j.vc.Obs[r.k].Name] {
+				if isSlow(r.j.vc.Obs[r.k].Name) {
 					deferred = append(deferred, r.j.vc.Obs[r.k].Name)
 					continue
 				}
@@ -478,7 +494,7 @@ func cmdCheck(args []string) int {
 	// is tried again, four at a time, before it is reported (a `sat` answer is never retried)
 	{
 		np := loadNotClaimed()
-		sem2 := make(chan struct{}, 4)
+		sem2 := make(chan struct{}, 2)
 		var wg3 sync.WaitGroup
 		for _, r := range todo {
 			ob := r.j.vc.Obs[r.k]
@@ -493,7 +509,7 @@ func cmdCheck(args []string) int {
 			go func(r obRef) {
 				defer wg3.Done()
 				defer func() { <-sem2 }()
-				res, per := discharge(r.j.vc, r.k, to*2, thorough)
+				res, per := discharge(r.j.vc, r.k, to*3, thorough)
 				ob := r.j.vc.Obs[r.k]
 				mu.Lock()
 				if res.Answer == "unsat" || res.Answer == "sat" {
